@@ -72,6 +72,8 @@ class Renderer:
         args = list(d.get("args", []))
         call = "V.c(%r, %d%s)" % (role, cid, (", " + _kw(args)) if args else "")
         flavor = d.get("flavor", "sync")
+        dargs = set(d.get("dargs", [])) if flavor == "sync" else set()
+        args = [a for a in args if a not in dargs] + ["%s=V.NOARG" % a for a in args if a in dargs]
         if d.get("lam") and flavor in ("sync", "ret_coro_lam"):
             return "lambda %s: %s" % (", ".join(args), call)
         name = "c%d" % cid
@@ -112,21 +114,23 @@ class Renderer:
                 self.pre.append("%s = ErrA('instance error of #%d')\n" % (name, cid))
             return name
         args = list(e.get("args", []))
+        dargs = set(e.get("dargs", []))  # parameters of the factory that carry a default of their own
+        sig = [a for a in args if a not in dargs] + ["%s=V.NOARG" % a for a in args if a in dargs]
         call = "V.err(%d%s)" % (cid, (", " + _kw(args)) if args else "")
         if form == "lambda":
-            return "lambda %s: %s" % (", ".join(args), call)
+            return "lambda %s: %s" % (", ".join(sig), call)
         if form == "def":
             name = "e%d" % cid
             if name not in self._defined:
                 self._defined.add(name)
-                self.pre.append("def %s(%s):\n    return %s\n" % (name, ", ".join(args), call))
+                self.pre.append("def %s(%s):\n    return %s\n" % (name, ", ".join(sig), call))
             return name
         if form == "method":
             name = "m%d" % cid
             if name not in self._defined:
                 self._defined.add(name)
                 self.pre.append("def _%s(_fac%s):\n    return %s\nFac.%s = _%s\n" % (
-                    name, "".join(", " + a for a in args), call, name, name))
+                    name, "".join(", " + a for a in sig), call, name, name))
             return "FAC.%s" % name
         raise ValueError(form)
 
